@@ -11,10 +11,17 @@
                        (`-? (D+ | D+.D* | D*.D+) ([eE] [+-]? D+)?`, ASCII digits only).
   * `step` / `loop`  — one iteration / all iterations of the `while !src.finished` loop of
                        `parse_path`, with the `need_start / need_end / implicit_cmd` automaton.
-  * `parseWith`      — `PathParser::parse` (fresh parser): runs the loop, then `end(false)` if
-                       `need_end`.  The initial value of `need_start` is a parameter
-                       (`parse` = the code as it is: `false`; `parseFixed` = with the proposed
-                       patch `fixes/C17-need-start.patch`).
+  * `parse`          — `PathParser::parse` (fresh parser): runs the loop, then `end(false)` if
+                       `need_end`.
+  * history          — the model mirrors the code after the two repairs
+                       00996849 (`need_start` starts `true`; the `need_start` test rejects the
+                       drawing/close letters, an unknown letter still yields
+                       `ParseError::Command`) and c7c34442 (`Source::with_position` sets the
+                       column to -1 when the input starts with a newline).  Before them
+                       `need_start` started `false` with the test `cmd != 'm' && cmd != 'M'`
+                       (so `L 1 1`, `Z`, `H 3` were accepted and sent calls outside any
+                       sub-path; with one attribute `A 1 1 0 0 0 5 5 7` panicked), and the initial
+                       column was 0 also on a leading newline (`"\nx"` reported column 1).
   * numbers          — a number's VALUE is `Num.ofLexeme lexeme` (parameter); the arithmetic the
                        parser does on values (`+`, `-`, the `is_straight_line` test and the arc →
                        quadratic conversion of `lyon_geom`) are fields of `Num` as well.
@@ -72,8 +79,15 @@ def nextCol (r : List Char) (c : Int) : Int :=
   | [] => c
   | d :: _ => if d == '\n' then -1 else c + 1
 
+/-- the column `with_position(_, 0, _)` starts with: -1 on a leading newline (as `advance_one`
+does when it steps onto a newline), 0 otherwise -/
+def startCol (inp : List Char) : Int :=
+  match inp with
+  | [] => 0
+  | c :: _ => if c == '\n' then -1 else 0
+
 /-- `Source::new` = `with_position(0, 0, _)`. -/
-def Src.new (inp : List Char) : Src := ⟨inp, nextLine inp 0, 0⟩
+def Src.new (inp : List Char) : Src := ⟨inp, nextLine inp 0, startCol inp⟩
 
 /-- `src.current` (`'~'` once finished). -/
 def Src.cur (s : Src) : Char := s.inp.headD '~'
@@ -444,15 +458,9 @@ def isDrawingCmd (cmd : Char) : Bool :=
   cmd == 'q' || cmd == 'Q' || cmd == 't' || cmd == 'T' || cmd == 'c' || cmd == 'C' ||
   cmd == 's' || cmd == 'S' || cmd == 'a' || cmd == 'A' || cmd == 'z' || cmd == 'Z'
 
-/-- which commands the `need_start` test rejects.  Current code (`fix = false`):
-`cmd != 'm' && cmd != 'M'`.  Proposed fix (`fixes/C17-need-start.patch`, `fix = true`): the
-drawing/close commands only, so that an unknown letter still yields `ParseError::Command`. -/
-def needStartBlocks (fix : Bool) (cmd : Char) : Bool :=
-  if fix then isDrawingCmd cmd else (cmd != 'm' && cmd != 'M')
-
 /-- one iteration of the `while` loop body after the `stop_at` test -/
-def step (fix : Bool) (N : Num ν) (na : Nat) (st : St ν) (s : Src) : StepOut ν :=
-  if st.needStart && needStartBlocks fix (cmdOf st s) then
+def step (N : Num ν) (na : Nat) (st : St ν) (s : Src) : StepOut ν :=
+  if st.needStart && isDrawingCmd (cmdOf st s) then
     .fail (.missingMoveTo (cmdOf st s) s.line s.col) st.needEnd (afterCmd s) []
   else dispatchCmd N na (cmdOf st s) s.line s.col st (afterCmd s)
 
@@ -479,37 +487,27 @@ def closing (needEnd : Bool) (s : Src) : List (Emit ν) :=
 def Result.cons (em : List (Emit ν)) (r : Result ν) : Result ν := { r with calls := em ++ r.calls }
 
 /-- the `while !src.finished` loop (entered after a `skip_whitespace`), followed by the clean-up
-of `parse`.  `fuel` bounds the number of iterations; `parseWith` supplies `length + 1`. -/
-def loop (fix : Bool) (N : Num ν) (na : Nat) (stop : Option Char) : Nat → St ν → Src → Result ν
+of `parse`.  `fuel` bounds the number of iterations; `parse` supplies `length + 1`. -/
+def loop (N : Num ν) (na : Nat) (stop : Option Char) : Nat → St ν → Src → Result ν
   | 0, _, s => ⟨[], .stuck, s⟩
   | fuel + 1, st, s =>
     if s.fin then ⟨closing st.needEnd s, .ok, s⟩
     else if stop == some s.cur then ⟨closing st.needEnd s, .ok, s⟩
     else
-      match step fix N na st s with
-      | .cont st' s' em => (loop fix N na stop fuel st' s'.skipWs).cons em
+      match step N na st s with
+      | .cont st' s' em => (loop N na stop fuel st' s'.skipWs).cons em
       | .fail e ne s' em => ⟨em ++ closing ne s', .err e, s'⟩
       | .panic s' em => ⟨em, .panic, s'⟩
 
-def St.init (N : Num ν) (needStart : Bool) : St ν :=
+/-- the state at the start of `parse_path` (`need_start = true`) -/
+def St.init (N : Num ν) : St ν :=
   { attrs := [], cur := (N.zero, N.zero), needEnd := false, first := (N.zero, N.zero),
-    needStart := needStart, prevCubic := none, prevQuad := none, implicit := 'M' }
+    needStart := true, prevCubic := none, prevQuad := none, implicit := 'M' }
 
 /-- `PathParser::new().parse(&ParserOptions{num_attributes: na, stop_at: stop}, &mut
-Source::new(inp), output)`; `fix = false`: the code as it is; `fix = true`: with
-`fixes/C17-need-start.patch` (`need_start` starts `true`, and the `need_start` test rejects the
-drawing/close commands). -/
-def parseWith (fix : Bool) (N : Num ν) (na : Nat) (stop : Option Char) (inp : List Char) :
-    Result ν :=
-  loop fix N na stop (inp.length + 1) (St.init N fix) (Src.new inp).skipWs
-
-/-- the parser as it is (`let mut need_start = false;`) -/
+Source::new(inp), output)` -/
 def parse (N : Num ν) (na : Nat) (stop : Option Char) (inp : List Char) : Result ν :=
-  parseWith false N na stop inp
-
-/-- the parser with the proposed fix -/
-def parseFixed (N : Num ν) (na : Nat) (stop : Option Char) (inp : List Char) : Result ν :=
-  parseWith true N na stop inp
+  loop N na stop (inp.length + 1) (St.init N) (Src.new inp).skipWs
 
 def Result.trace (r : Result ν) : List (PCall ν) := r.calls.map Prod.snd
 
